@@ -48,6 +48,8 @@ const PAYEES: &[&str] = &[
     "cashback",
     "Wire Sent",
     "Hamachi Super",
+    "#4711 Invoice",
+    "31415 92653",
 ];
 
 const HOSTILE: &[&str] = &[
@@ -150,6 +152,28 @@ fn gen_rules(rng: &mut Rng, rich: bool, has_category: bool, has_sec: bool) -> Ve
             conversion: None,
         });
     }
+    if rich && rng.chance(1, 4) {
+        // two patterns that differ in letter case only and mean opposite things
+        let twins = [("^\\D+$", "^\\d"), ("\\S \\S", "^\\s"), ("^\\w+$", "\\W"), ("\\bcard\\b", "\\Bard")];
+        let (a, b) = twins[rng.usize(twins.len())];
+        let (a, b) = if rng.chance(1, 2) { (a, b) } else { (b, a) };
+        for (pat, acct) in [(a, "Expenses:Twin:One"), (b, "Expenses:Twin:Two")] {
+            let mut el = BTreeMap::new();
+            el.insert("payee".to_string(), pat.to_string());
+            let at = rng.usize(rules.len() + 1);
+            rules.insert(
+                at,
+                Rule {
+                    single: rng.chance(1, 2),
+                    matcher: vec![el],
+                    pending: rng.chance(1, 4),
+                    payee: None,
+                    account: Some(acct.to_string()),
+                    conversion: None,
+                },
+            );
+        }
+    }
     rules
 }
 
@@ -168,7 +192,14 @@ fn gen_sc(rng: &mut Rng, flavour: u8) -> Sc {
         "Assets:Okane Bank"
     };
     let (primary, dp) = COMMODITIES[rng.usize(COMMODITIES.len())];
-    let file = "/w/in/bank/okane/2024-stmt.csv".to_string();
+    // the statement's path as the user spells it: a document applies when its `path` occurs in
+    // that text, whatever the file system would resolve it to ("archive/" applies to the second
+    // spelling only, and to nothing once the path is canonicalised)
+    let file = if flavour == 17 && rng.chance(1, 4) {
+        "/w/in/bank/archive/../okane/2024-stmt.csv".to_string()
+    } else {
+        "/w/in/bank/okane/2024-stmt.csv".to_string()
+    };
     // ---- layout ----
     let credit_debit = rng.chance(1, 2);
     let has_balance = rng.chance(2, 3);
@@ -226,7 +257,8 @@ fn gen_sc(rng: &mut Rng, flavour: u8) -> Sc {
             "category" => ("Action", "区分"),
             "note" => ("Memo", "メモ"),
             "charge" => ("Fees & Comm", "手数料"),
-            _ => ("Unused", "備考"),
+            // a counter column some banks label with a bare number sign
+            _ => ("#", "備考"),
         };
         if japanese { ja.to_string() } else { en.to_string() }
     };
@@ -338,7 +370,7 @@ fn gen_sc(rng: &mut Rng, flavour: u8) -> Sc {
         // "oka/", "2024/" and "in/ban/" do not occur in the statement's path, although they would without
         // their trailing slash; "okane/2024" ties with "bank/okane", "/bank" with the base's "bank/" and "stmt.csv" with
         // nothing that applies: documents with equally long paths all take part, in either order
-        let more_paths = ["bank/okane", "okane/2024-", "2024-stmt.csv", "in/bank/okane/2024-stmt", "nomatch/", "other.csv", "okane/2023", "okane/2024", "/bank", "stmt.csv", "oka/", "2024/", "in/ban/"];
+        let more_paths = ["bank/okane", "okane/2024-", "2024-stmt.csv", "in/bank/okane/2024-stmt", "nomatch/", "other.csv", "okane/2023", "okane/2024", "/bank", "stmt.csv", "oka/", "2024/", "in/ban/", "archive/", "bank/okane/2024"];
         let mut chosen: Vec<&str> = Vec::new();
         for p in more_paths {
             if rng.chance(1, 3) {
@@ -400,6 +432,10 @@ fn gen_sc(rng: &mut Rng, flavour: u8) -> Sc {
             };
             if rng.chance(1, 2) {
                 shorter.account = Some("Assets:Overridden Later".to_string());
+            }
+            if rng.chance(1, 2) {
+                // the directory-wide default says the opposite; the longer path's setting wins
+                shorter.account_type = Some(if liability { "asset" } else { "liability" }.to_string());
             }
             docs.push(shorter);
         }
@@ -641,7 +677,10 @@ fn import_statement(sc: &Sc, k: usize, out: &mut RunOut, rule_prefix: &str) -> O
     let csv: Vec<u8> = bytes.into_owned();
     let mut files: BTreeMap<String, Vec<u8>> = BTreeMap::new();
     files.insert("/w/import.yml".to_string(), yaml.clone().into_bytes());
-    files.insert(sc.file.clone(), csv.clone());
+    files.insert(crate::ledger::normalize(&sc.file), csv.clone());
+    if sc.file.contains("/archive/../") {
+        files.insert("/w/in/bank/archive/.keep".to_string(), b"keep\n".to_vec());
+    }
     let files = Rc::new(files);
     let no_faults = Default::default();
     let today = Date::new(2024, 6, 15);
@@ -1343,7 +1382,11 @@ impl Check for C17 {
         let yaml_multi = docs_yaml(&sc.docs);
         let yaml_ones: Vec<String> = candidates.iter().map(|m| docs_yaml(std::slice::from_ref(m))).collect();
         let p0 = &sc.procs[0];
-        let files = Rc::new(BTreeMap::new());
+        // the statement exists where its path resolves to: selection goes by the path as given
+        let mut present: BTreeMap<String, Vec<u8>> = BTreeMap::new();
+        present.insert(crate::ledger::normalize(&sc.file), b"x\n".to_vec());
+        present.insert("/w/in/bank/archive/.keep".to_string(), b"keep\n".to_vec());
+        let files = Rc::new(present);
         let vfs = make_vfs(&files, &Default::default(), p0, Date::new(2024, 6, 15));
         let file = sc.file.clone();
         let rd = crate::vfs::ChunkReader::new(yaml_multi.clone().into_bytes(), p0.read_chunks.clone(), None);
